@@ -2,7 +2,7 @@
 """Regression matrix of the checks against the stored seeded changes (must be DETECTED) and behaviour-preserving
 refactorings (must not raise a VIOLATION; exit 2 = inconclusive is tolerated but counted).
 
-usage: tools/regress.py [C01 ...] [--src-refactors /tmp/wtb]   (default: /verif/benign and /verif/seeded)
+usage: tools/regress.py [C01 ...] [--match REGEX-on-names] [--src-refactors /tmp/wtb]   (default: /verif/benign and /verif/seeded)
 """
 import json, os, shutil, subprocess, sys, tempfile
 from concurrent.futures import ThreadPoolExecutor
@@ -13,7 +13,15 @@ if '--src-refactors' in sys.argv:
   src_ref = sys.argv[sys.argv.index('--src-refactors') + 1]
 
 
+import re
+MATCH = re.compile(sys.argv[sys.argv.index('--match') + 1]) if '--match' in sys.argv else None
+
+
 def cases():
+  return [c for c in _cases() if MATCH is None or MATCH.search(c[1])]
+
+
+def _cases():
   out = []
   for d in sorted(os.listdir(os.path.join(V, 'seeded'))):
     p = os.path.join(V, 'seeded', d)
@@ -65,3 +73,7 @@ for (kind, name, prop, patch), status, rules in res:
     print('%s %-8s %-10s %-12s %s' % (flag, kind, name, status, ' '.join(rules)))
 print('seeds: %d/%d detected (%d inconclusive); refactors: %d/%d silent (%d inconclusive, %d false VIOLATION)' % (
     tot['seed'][1], tot['seed'][0], tot['seed'][2], tot['refactor'][1], tot['refactor'][0], tot['refactor'][2], tot['refactor'][0] - tot['refactor'][1] - tot['refactor'][2]))
+if '--write-detected' in sys.argv:
+  det = sorted(name for (kind, name, prop, patch), status, rules in res if kind == 'seed' and status == 'VIOLATION')
+  json.dump(det, open(os.path.join(V, 'seeded', 'DETECTED.json'), 'w'), indent=0)
+  print('wrote seeded/DETECTED.json: %d seeds' % len(det))
